@@ -700,6 +700,8 @@ struct World {
     st: ShardedActorState,
     c1: Conn,
     c2: Conn,
+    /// a second foreign connection, opened when a schedule puts two commands into one await slot
+    c3: Option<Conn>,
     twin: ShardedActorState,
     tw: Conn,
     /// frames applied to the twin since its creation (to clone it)
@@ -747,6 +749,7 @@ impl World {
             shards,
             c1: Conn::open_cfg(&st, cfg.clone()),
             c2: Conn::open(&st),
+            c3: None,
             tw: Conn::open(&twin),
             st,
             twin,
@@ -1130,7 +1133,17 @@ impl World {
                 real.push(!matches!(i, Inp::Cmd(Cmd::Ping) | Inp::Local(0..=2)));
             }
         }
+        // two commands in one slot: the second travels on a third connection, which is in lock step
+        // as well (one store access per connection per round, in the order the tasks were woken:
+        // the modelled client, the second connection, the third)
+        let two = sched.iter().any(|s| s.len() > 1);
+        if two && self.c3.is_none() {
+            self.c3 = Some(Conn::open(&self.st));
+            tokio::task::yield_now().await;
+            tokio::task::yield_now().await;
+        }
         let mut pipeline = Vec::new();
+        let mut pipeline3 = Vec::new();
         let mut n_pipe = 0;
         for (i, slot) in sched.iter().enumerate() {
             if i == 0 {
@@ -1142,19 +1155,31 @@ impl World {
                 assert!(slot.is_empty());
                 continue;
             }
-            assert!(slot.len() <= 1);
+            assert!(slot.len() <= 2);
             match slot.first() {
                 Some(c) => pipeline.extend(frame(&c.args())),
                 None => pipeline.extend(frame(&[b("LLEN"), b(FILLER_KEY)])),
+            }
+            match slot.get(1) {
+                Some(c) => pipeline3.extend(frame(&c.args())),
+                None => pipeline3.extend(frame(&[b("LLEN"), b(FILLER_KEY)])),
             }
             n_pipe += 1;
         }
         let inp = Inp::Exec(sched.clone());
         self.c1.write(&frame(&inp.args())).await;
         self.c2.write(&pipeline).await;
+        if two {
+            self.c3.as_mut().expect("third connection").write(&pipeline3).await;
+        }
         let r = self.c1.recv().await;
         for _ in 0..n_pipe {
             self.c2.recv().await;
+        }
+        if two {
+            for _ in 0..n_pipe {
+                self.c3.as_mut().expect("third connection").recv().await;
+            }
         }
         self.in_multi = false;
         let body = std::mem::take(&mut self.body);
@@ -1918,6 +1943,71 @@ enum Step {
     Overflow(Vec<u8>),
 }
 
+/// ALL placements of one and of two foreign commands among the await points of EXEC (before its
+/// first store access, between two consecutive accesses, after the last), for six bodies with two
+/// or three store accesses (watch comparisons included) and every ordered choice of the foreign
+/// commands from three writes that hit the transaction's keys.  `Props/C05Sched.lean`
+/// (`placements_cover`) proves that for these bodies and foreign sequences the placements ARE the
+/// whole schedule space of the model; here each of them is run on the real handler (two commands in
+/// one slot travel on two foreign connections), compared with the model and judged by the oracle.
+async fn schedule_enumeration(out: &mut Out, shards: usize) -> usize {
+    let s = |k: &str, v: &str| Cmd::Set(k.into(), b(v));
+    let bodies: Vec<(&str, Vec<&str>, Vec<Cmd>)> = vec![
+        ("set-get", vec![], vec![s("k", "1"), Cmd::Get("k".into())]),
+        ("watch-get", vec!["k"], vec![Cmd::Get("k".into())]),
+        ("watch-incr-get", vec!["k"], vec![Cmd::Incr("n".into()), Cmd::Get("k".into())]),
+        ("incr-incr-get", vec![], vec![Cmd::Incr("n".into()), Cmd::Incr("n".into()), Cmd::Get("n".into())]),
+        ("watch-list", vec!["l"], vec![Cmd::Rpush("l".into(), vec![b("a")]), Cmd::Llen("l".into())]),
+        ("watch2-set", vec!["k", "n"], vec![s("x", "1")]),
+    ];
+    let foreign = [s("k", "F"), Cmd::Incr("n".into()), Cmd::Rpush("l".into(), vec![b("z")])];
+    let mut seqs: Vec<Vec<Cmd>> = foreign.iter().map(|f| vec![f.clone()]).collect();
+    for a in &foreign {
+        for c in &foreign {
+            seqs.push(vec![a.clone(), c.clone()]);
+        }
+    }
+    let mut count = 0usize;
+    for (label, watch, body) in &bodies {
+        let acc = watch.len() + body.len();
+        for fs in &seqs {
+            let mut pls: Vec<Vec<usize>> = Vec::new();
+            if fs.len() == 1 {
+                pls.extend((0..=acc).map(|i| vec![i]));
+            } else {
+                for i in 0..=acc {
+                    for j in i..=acc {
+                        pls.push(vec![i, j]);
+                    }
+                }
+            }
+            for pl in pls {
+                let mut steps = vec![Step::Other(s("k", "0")), Step::Other(s("n", "5")), Step::Other(Cmd::Rpush("l".into(), vec![b("x")]))];
+                if !watch.is_empty() {
+                    steps.push(Step::In(Inp::Watch(watch.iter().map(|k| k.to_string()).collect())));
+                }
+                steps.push(Step::In(Inp::Multi));
+                for c in body {
+                    steps.push(Step::In(Inp::Cmd(c.clone())));
+                }
+                let mut sched: Vec<Vec<Cmd>> = vec![Vec::new(); acc + 1];
+                for (c, slot) in fs.iter().zip(&pl) {
+                    if *slot == 0 {
+                        steps.push(Step::Other(c.clone()));
+                    } else {
+                        sched[*slot].push(c.clone());
+                    }
+                }
+                steps.push(Step::ConcExec(sched));
+                session_labelled(out, &mut Rng::new(0xC05), Some((shards, steps)), None).await;
+                out.count(&format!("schedule-enumeration:{}shard:{}:k={}", shards, label, fs.len()));
+                count += 1;
+            }
+        }
+    }
+    count
+}
+
 /// fixed corpus: the witnesses of the Lean counterexample theorems, replayed first on every run
 fn corpus() -> Vec<(usize, Vec<Step>)> {
     let mut v = Vec::new();
@@ -2237,6 +2327,35 @@ fn audit_corpus() -> Vec<(&'static str, usize, Option<ConnectionConfig>, Option<
         hist.push(Step::In(Inp::Cmd(Cmd::Get("n".into()))));
         hist.push(Step::In(Inp::Exec(vec![])));
         v.push(("history:twelve-transactions", shards, None, None, hist));
+        // --- class 3 / arithmetic edge: the snapshot comparison must look at EVERY byte of a long
+        // value: a watched string of 1 … 70 000 bytes is replaced by one of the SAME length that
+        // differs in exactly one byte — the first, the middle, the last (a comparison that stops
+        // after a prefix, a length-only comparison, a hash of a prefix all miss some of these).
+        // Self-test: `resp_values_equal` comparing the first 4096 bytes only was missed before.
+        let mut long = Vec::new();
+        for len in [1usize, 2, 64, 4095, 4096, 4097, 8192, 16384, 65536, 70000] {
+            let base: Vec<u8> = (0..len).map(|i| b'a' + (i % 23) as u8).collect();
+            let mut poss = vec![0, len / 2, len - 1];
+            poss.dedup();
+            for pos in poss {
+                let mut changed = base.clone();
+                changed[pos] = b'Z';
+                long.push(Step::Other(Cmd::Set("k".into(), base.clone())));
+                long.push(Step::In(Inp::Watch(vec!["k".into()])));
+                long.push(Step::Other(Cmd::Set("k".into(), changed)));
+                long.push(Step::In(Inp::Multi));
+                long.push(Step::In(Inp::Cmd(Cmd::Incr("n".into()))));
+                long.push(Step::In(Inp::Exec(vec![])));
+            }
+            // … and the same value written again is NO change
+            long.push(Step::Other(Cmd::Set("k".into(), base.clone())));
+            long.push(Step::In(Inp::Watch(vec!["k".into()])));
+            long.push(Step::Other(Cmd::Set("k".into(), base.clone())));
+            long.push(Step::In(Inp::Multi));
+            long.push(Step::In(Inp::Cmd(Cmd::Incr("n".into()))));
+            long.push(Step::In(Inp::Exec(vec![])));
+        }
+        v.push(("alphabet:long-watched-value-differs-in-one-byte", shards, None, None, long));
     }
     v
 }
@@ -2564,6 +2683,22 @@ fn xcorpus() -> Vec<(Vec<XStep>, Option<(&'static str, &'static str)>)> {
         // … and in a one-member sorted set
         (vec![c(Cmd::Zadd("ab".into(), 10, b("alice"))), XStep::Watch(vec!["ab".into()]), c(Cmd::Zadd("ab".into(), 11, b("alice"))), XStep::Multi, c(Cmd::Set("w".into(), b("x"))), XStep::Exec],
          Some(("C05:x:watch:zset-score-only-change-detected", "$-"))),
+        // a long watched string replaced by one of the same length that differs in ONE byte
+        // (first / middle / last), lengths around every plausible internal limit
+        ({
+            let mut v = Vec::new();
+            for len in [1usize, 2, 64, 4095, 4096, 4097, 8192, 65536, 70000] {
+                let base: Vec<u8> = (0..len).map(|i| b'a' + (i % 23) as u8).collect();
+                let mut poss = vec![0, len / 2, len - 1];
+                poss.dedup();
+                for pos in poss {
+                    let mut changed = base.clone();
+                    changed[pos] = b'Z';
+                    v.extend([c(Cmd::Set("k".into(), base.clone())), XStep::Watch(vec!["k".into()]), c(Cmd::Set("k".into(), changed)), XStep::Multi, c(Cmd::Incr("n".into())), XStep::Exec]);
+                }
+            }
+            v
+        }, Some(("C05:x:watch:one-byte-change-of-a-long-value-detected", "$-"))),
     ]
 }
 
@@ -2579,6 +2714,7 @@ const AUDIT: &str = r####"{
  "8 node-global state": "CLOSED: the shard executors' own transaction state is node-global and is reached by no path of the production handler (source scan: the handler intercepts MULTI / EXEC / DISCARD / WATCH; a queued UNWATCH reaches shard 0 and finds nothing) but IS the state that SimulationHarness / RedisServer / the replicated front end expose (driven; two known findings); the script cache (EVAL / SCRIPT LOAD / EVALSHA inside EXEC vs outside); the ACL manager (ACL SETUSER / DELUSER inside EXEC vs outside); the wall clock (TTL flags after EXEC vs the twin). OPEN: metrics counters (not observable by a client).",
  "9 observations": "CLOSED: every reply of every input, the typed value of every key of the session after every EXEC / DISCARD / close (member by member), which keys carry a deadline after EXEC vs the sequential twin (C05:exec:ttl-differs-from-sequential), the NEXT state of the machine after every (state, input) pair — observed through probes (queue length, error flag, whether the old and the newly named keys are still watched). OPEN: exact TTL values (wall clock), INFO counters.",
  "10 finding signatures": "CLOSED (§10.6) and extended: the two new findings are keyed by cause — the shared-executor finding fires only when the result count is exactly own + captured-foreign with the model predicting each reply; the replicated finding only after a MULTI answered `unknown command` with the command answered in the plain; everything else gets its own signature (C05:x:shared:exec-result-count, C05:replicated-frontend:queued-command-changed-the-store, C05:x:sweep:…, C05:exec:sweep:…, C05:close:…, C05:overflow:…, C05:table:…).",
+ "session 4": "the machines over the M7 REFERENCE executor (Model/Txn7.lean, Props/C05M7.lean; ops `M …`, harness c05m7.rs): bodies, watched keys and foreign commands drawn from ~100 frame templates of the whole command set of Model/Redis.lean (strings, counters, lists, sets, hashes, sorted sets, two-key and multi-key commands, expiry commands with far / reached deadlines), parsed by the REAL parser for the model's op text; connection level through H1 on 1 and 4 shards with foreign commands before WATCH / between WATCH and MULTI / between MULTI and EXEC / during EXEC (lock step) and a deadline of a watched key (every type) made to pass between WATCH and EXEC; executor level on a VIRTUAL clock with C01's full timed generator inside MULTI / EXEC (deadlines just before / at / just past the instant of EXEC, time passing between WATCH, MULTI and EXEC); twin oracle (results, store, nil ⇔ typed value changed, serializability when the foreign keys are disjoint). Schedules: ALL placements of one and of two foreign commands among the await points of EXEC for six bodies with 2–3 store accesses on 1 and 4 shards (1068 per run; two commands in one slot via two lock-step connections) — Props/C05Sched.lean proves the placements are the whole schedule space. OPEN: M7 sessions avoid GETSET / SPOP / RANDOMKEY / non-UTF-8 members (C01's conformance findings and relational replies); exact TTL values are compared at the executor level only; truly parallel shard actors are not driven",
  "11 harness fragility": "CLOSED: the source tree is found through the harness's own Cargo.toml (never a hard-coded /repo); a scan that does not find its anchors is a violation (scan-failed); every WATCH-matrix cell and every decision-table cell must have been driven exactly once (C05:harness:empty-cell, C05:table:empty-cell, probe-unreadable); a reply that never comes is a named outcome; executor calls under catch_unwind report `crash`; the panics of the sweeps are violations, not skips. OPEN: a panic inside a spawned connection task shows as `?connection closed` (compared, so not silent)."
 }"####;
 
@@ -2612,6 +2748,23 @@ pub fn run(a: &Args) {
         }
     });
     drop(rt);
+    // every placement of ≤ 2 foreign commands among EXEC's await points, small bodies
+    {
+        let t0 = std::time::Instant::now();
+        let mut n_pl = 0usize;
+        for shards in [1usize, 4] {
+            let rt = tokio::runtime::Builder::new_current_thread().enable_all().build().unwrap();
+            n_pl += rt.block_on(schedule_enumeration(&mut out, shards));
+            drop(rt);
+        }
+        // 2 bodies with 2 accesses: 3·3 + 9·6 = 63 each; 4 bodies with 3 accesses: 3·4 + 9·10 = 102 each
+        let want = 2 * (2 * 63 + 4 * 102);
+        out.extra.insert("schedule_enumeration".into(), json!({"placements_run": n_pl, "expected": want, "bodies": 6, "foreign_commands": 3, "max_foreign_per_exec": 2, "shards": [1, 4], "theorem": "RedisVerif.C05.placements_cover"}));
+        if n_pl != want {
+            out.violation("C05:harness:schedule-enumeration-incomplete", &format!("{} placements run, {} expected", n_pl, want), json!({"run": n_pl, "expected": want}));
+        }
+        eprintln!("schedule enumeration: {} placements in {:?}", n_pl, t0.elapsed());
+    }
     // the decision table of the connection-level machine, extracted from the real handler cell by
     // cell (every reachable state class × every input class, several representatives per class)
     let mut n_cells = 0usize;
@@ -2693,6 +2846,8 @@ pub fn run(a: &Args) {
         }
     }
     out.extra.insert("audit".into(), serde_json::from_str(AUDIT).expect("audit json"));
+    // the machines over the M7 reference executor: the whole command set, deadlines, the clock
+    crate::c05m7::run(&mut out, &mut rng.fork(), a.n / 8);
     // a fresh runtime every 200 sessions: the shard actors of finished sessions go away with it
     let mut done = 0;
     while done < a.n {
@@ -2710,5 +2865,5 @@ pub fn run(a: &Args) {
         let mut r = rng.fork();
         xsession(&mut out, &mut r, None, None, None);
     }
-    out.finish("case = one session. Part A: 6..24 steps on REAL connection handlers (hook H1) sharing one ShardedActorState (1 or 4 shards): modelled client inputs (WATCH, MULTI, data commands GET/SET/INCR/APPEND/DEL/RPUSH/LRANGE/LLEN/PING on 6 keys holding strings (integers, non-integers), lists, hashes, sets and sorted sets (LSET LPOP HSET HDEL SADD SREM ZADD ZREM, EXPIRE / PERSIST, deadlines that pass), run-time failing commands, unknown commands, arity errors, nested MULTI, WATCH in MULTI, EXEC/DISCARD without MULTI, UNWATCH, connection-level commands AUTH/ACL WHOAMI/RESET/CLIENT SETNAME, PUBLISH) interleaved with the other client's writes before WATCH, between WATCH and MULTI, between MULTI and EXEC, and during EXEC (pipeline in lock step with EXEC's store accesses: sampled schedule); part B: 6..24 inputs on a REAL CommandExecutor driven like the shard actor (set_time before every command); first of all the WATCH matrix: every (level: connection 1 shard | connection 4 shards | executor) × (type of the watched key) × (modification) as one scripted session, counted as watchmatrix:<level>:<type>:<modification>:<aborted|proceeded>:value-<changed|same>. Distinct by the full session text; non-trivial iff it contains an EXEC inside MULTI that had a non-empty queue or a watched key");
+    out.finish("case = one session. Part A: 6..24 steps on REAL connection handlers (hook H1) sharing one ShardedActorState (1 or 4 shards): modelled client inputs (WATCH, MULTI, data commands GET/SET/INCR/APPEND/DEL/RPUSH/LRANGE/LLEN/PING on 6 keys holding strings (integers, non-integers), lists, hashes, sets and sorted sets (LSET LPOP HSET HDEL SADD SREM ZADD ZREM, EXPIRE / PERSIST, deadlines that pass), run-time failing commands, unknown commands, arity errors, nested MULTI, WATCH in MULTI, EXEC/DISCARD without MULTI, UNWATCH, connection-level commands AUTH/ACL WHOAMI/RESET/CLIENT SETNAME, PUBLISH) interleaved with the other client's writes before WATCH, between WATCH and MULTI, between MULTI and EXEC, and during EXEC (pipeline in lock step with EXEC's store accesses: sampled schedule); part B: 6..24 inputs on a REAL CommandExecutor driven like the shard actor (set_time before every command); first of all the WATCH matrix: every (level: connection 1 shard | connection 4 shards | executor) × (type of the watched key) × (modification) as one scripted session, counted as watchmatrix:<level>:<type>:<modification>:<aborted|proceeded>:value-<changed|same>. Distinct by the full session text; non-trivial iff it contains an EXEC inside MULTI that had a non-empty queue or a watched key. Part M7 (c05m7.rs): the same two levels with bodies / watched keys / foreign commands from the whole command set of the M7 reference model (connection level: 8..26 steps, time-robust frames, wall clock; executor level: 8..30 steps, virtual clock, C01's timed generator); schedule enumeration: one session per placement of ≤ 2 foreign commands among EXEC's await points for six small bodies");
 }
